@@ -149,6 +149,7 @@ pub fn preprocess<T: AsRef<Path>, U: AsRef<Path>, V: BuildHasher>(
         strip_comments,
         ignore_include,
         0, // include_depth
+        0, // resolve_depth
     )
 }
 
@@ -159,6 +160,7 @@ fn preprocess_inner<T: AsRef<Path>, U: AsRef<Path>, V: BuildHasher>(
     strip_comments: bool,
     ignore_include: bool,
     include_depth: usize,
+    resolve_depth: usize,
 ) -> Result<(PreprocessedText, Defines), Error> {
 
     let f = File::open(path.as_ref()).map_err(|x| Error::File {
@@ -178,7 +180,7 @@ fn preprocess_inner<T: AsRef<Path>, U: AsRef<Path>, V: BuildHasher>(
             include_paths,
             ignore_include,
             strip_comments,
-            0, // resolve_depth
+            resolve_depth,
             include_depth,
         )
     }
@@ -682,6 +684,7 @@ pub fn preprocess_str<T: AsRef<Path>, U: AsRef<Path>, V: BuildHasher>(
                             include_paths,
                             strip_comments,
                             resolve_depth + 1,
+                            include_depth,
                         )? {
                             let p = p.trim().trim_matches('"');
                             PathBuf::from(p)
@@ -727,7 +730,8 @@ pub fn preprocess_str<T: AsRef<Path>, U: AsRef<Path>, V: BuildHasher>(
                         include_paths,
                         strip_comments,
                         false, // ignore_include
-                        include_depth + 1).map_err(
+                        include_depth + 1,
+                        resolve_depth).map_err(
                         |x| Error::Include {
                             source: Box::new(x),
                         },
@@ -747,6 +751,7 @@ pub fn preprocess_str<T: AsRef<Path>, U: AsRef<Path>, V: BuildHasher>(
                     include_paths,
                     strip_comments,
                     resolve_depth + 1,
+                    include_depth,
                 )? {
                     ret.push(&text, origin);
                     defines = new_defines;
@@ -953,6 +958,7 @@ fn resolve_text_macro_usage<T: AsRef<Path>, U: AsRef<Path>>(
     include_paths: &[U],
     strip_comments: bool,
     resolve_depth: usize,
+    include_depth: usize,
 ) -> Result<Option<(String, Option<(PathBuf, Range)>, Defines)>, Error> {
     let (_, ref name, ref args) = x.nodes;
     let id = identifier((&name.nodes.0).into(), &s).unwrap();
@@ -1050,7 +1056,7 @@ fn resolve_text_macro_usage<T: AsRef<Path>, U: AsRef<Path>>(
                 false,
                 strip_comments,
                 resolve_depth,
-                0, // include_depth
+                include_depth,
             )?;
             Ok(Some((
                 String::from(replaced.text()),
